@@ -110,6 +110,14 @@ def generate(rng, tier):
         lines += ['gb.frames 1 2', 'gb.pix 1', 'gb.frames 0 1', 'gb.newloop 2 0 0 0'] + sysgen.scene_lines(_r.Random(rng.randrange(1 << 30)), 2)
         lines += ['gb.frames 2 2', 'gb.pix 2', 'gb.obs 1', 'gb.obs 2']
         cases.append(('dbg%d' % rep, lines))
+    # machines drawing different pictures truly in parallel
+    for rep in range(2 if tier == 'quick' else 10):
+        nI = 4
+        lines = []
+        for i in range(nI):
+            lines += ['gb.newloop %d 0 0 0' % i] + sysgen.scene_lines(_r.Random(rng.randrange(1 << 30)), i)
+        lines += ['gb.conc %d %d' % (nI, 6 if tier == 'quick' else 20)] + ['gb.pix %d' % i for i in range(nI)] + obs_all(nI)
+        cases.append(('pardraw%d' % rep, lines))
     # external RAM of cartridges that declare none / some: written on one instance, read on the others
     nram = 0
     for typ, ramc in [(0x01, 0), (0x00, 0), (0x11, 0), (0x19, 0), (0x03, 2), (0x13, 3), (0x1b, 2), (0x06, 0)]:
